@@ -2442,16 +2442,19 @@ def skel_cpool_Start : List String := [
   "func (v0 *ContinuousPool) Start(v1 context.Context) {",
   "v2, v3 := context.WithCancel(v1)",
   "v0.workerCtxCancel = v3",
+  "if v2.Err() != nil {",
+  "v0.stopWorkers.Store(true)",
+  "}",
+  "go func() {",
+  "<-v2.Done()",
+  "v0.stopWorkers.Store(true)",
+  "}()",
   "v4 := sync.WaitGroup{}",
   "v4.Add(v0.numWorkers)",
   "v0.manager.runningWorkers.Add(v0.numWorkers)",
   "for _, v5 := range v0.iterationStatePool {",
   "go v0.startWorker(v5, &v4)",
   "}",
-  "go func() {",
-  "<-v2.Done()",
-  "v0.stopWorkers.Store(true)",
-  "}()",
   "}"
 ]
 
